@@ -118,3 +118,12 @@ C("C11", "model_checking",
   "(which must be exactly the faulty ones) leave earlier and later events intact.",
   "ray paths are recording stubs with the real metadata keys; I/O errors in the middle of an add are not in the fault alphabet; files "
   "without any particle table are outside the alphabet", "DESIGN.md §4 C11")
+C("C12", "model_checking",
+  "exhaustive enumeration of all access paths (chunk sizes, indices, slice spellings x steps, append-session splits, generator file lists) on real files, differential against the sequential pass",
+  "For a family of files (3 configurations x 6-/4-/2-event sequences with unequal per-event row counts) written by the C11 driver: iteration with "
+  "every slice_range 1..n+1; every index -n..n-1 and both out-of-range ones; every slice 0<=start<stop<=n in every negative/None spelling x "
+  "step in {None,1,2,3} x reader chunk size {None,2}; every one of the 2^(n-1)-1 splits of the add sequence into append sessions x modes a / r+ "
+  "(also total thrown and index-table bounds); FileGenerator over every ordered list of 1-2 files x slice_range in {1..5,100} (particles replayed "
+  "field by field, StopIteration, count monotone and equal to the stored totals at file ends). Every access path must return, event for event, "
+  "what one sequential single-chunk pass returns (which is itself checked against the reference log).",
+  "zero-event files outside the alphabet; differential baseline = sequential pass validated against C11's reference log", "DESIGN.md §4 C12")
